@@ -53,9 +53,14 @@ type c06Call struct {
 type c06Rec struct {
 	mu    sync.Mutex
 	calls []c06Call
+	tick  func() // called after every read of the worker: a maintenance tick that lands in the middle of a pass
 }
 
-func (r *c06Rec) IncReadOps()                           {}
+func (r *c06Rec) IncReadOps() {
+	if r.tick != nil {
+		r.tick()
+	}
+}
 func (r *c06Rec) IncMaxEventSizeExceeded(lvs ...string) {}
 func (r *c06Rec) In(src pipeline.SourceID, _ string, off pipeline.Offsets, data []byte, _ bool, _ metadata.MetaData) uint64 {
 	r.mu.Lock()
@@ -152,6 +157,15 @@ func c06Run(dir string, id int, c *c06Case, jp *jobProvider, lg *zap.SugaredLogg
 
 	w := &worker{maxEventSize: c.M, cutOffEventByLimit: c.Cut}
 	rec := &c06Rec{}
+	busyTouched := 0
+	if id%2 == 1 {
+		// FileReader.tla MaintainBusy: the job is in a worker's hands (not done): maintenance must leave it alone
+		rec.tick = func() {
+			if r := jp.maintenanceJob(job); r != maintenanceResultNotDone {
+				busyTouched++
+			}
+		}
+	}
 	round := 0
 	defer func() {
 		if r := recover(); r != nil {
@@ -215,8 +229,11 @@ func c06Run(dir string, id int, c *c06Case, jp *jobProvider, lg *zap.SugaredLogg
 		}
 		if !ok {
 			got := append([]c06Call(nil), rec.calls...)
-			return &c06Mismatch{Kind: "calls_differ", Case: *c, Round: round, Want: want, Got: got}
+			return &c06Mismatch{Kind: "calls_differ", Case: *c, Round: round, Want: want, Got: got, Extra: map[string]interface{}{"maintenance_ticks_mid_pass": rec.tick != nil}}
 		}
+	}
+	if busyTouched > 0 {
+		return &c06Mismatch{Kind: "maintenance_handled_busy_job", Case: *c, Round: round, Extra: map[string]interface{}{"times": busyTouched}}
 	}
 	return nil
 }
